@@ -964,6 +964,8 @@ def c06(res):
         c06_league(res, rng, KINDS[k % 5], size(res, 120, 1200), games)
     corr_games(res, games, "correspondence", "C06 rate numbers")
     c06_league_model(res, rng)
+    import exact
+    exact.exact_leagues(res, random.Random(res.seed * 7919 + 13 + res.shard), size(res, 40, 120), "C06 league")
     res.rule = ("per game on the implementation: finite, sigma > 0, sigma <= sqrt(prior^2+tau^2) (1e-12 relative slack), with "
                 "limit_sigma sigma <= prior exactly; strata incl. teams 4-9 c apart, TM ties at draw margins t up to ~0.3, tau=0 "
                 "per call; leagues with ratings fed back and per-call tau/limit_sigma arbitrary per step: sigma_k^2 <= sigma_0^2 + "
